@@ -174,6 +174,14 @@ Definition stack {A B} (agg : list A -> B) (data : list A) (word : list Z) : lis
   let groups := uniq_sorted word in
   (map (fun g => agg (select word data g)) groups, map (fun g => count_eq g word) groups).
 
+(* header: pd.DataFrame(header).groupby("stack_word").aggregate("mean"): every header vector is aggregated
+   per label, the groups in SORTED label order (pandas groupby sorts by default) — the same order as the
+   stacked rows and fold.  hagg is the aggregate of the header values (mean), abstract. *)
+Definition stack_header {A B H HB} (agg : list A -> B) (hagg : list H -> HB)
+           (data : list A) (hdrs : list (list H)) (word : list Z) : list B * list (list HB) * list Z :=
+  let '(st, fold) := stack agg data word in
+  (st, map (fun h => fst (stack hagg h word)) hdrs, fold).
+
 (* stack = np.zeros((ntrs, ns), dtype=data.dtype); stack[sind, :] = fcn_agg(...):
    the aggregate is CAST to the dtype of the data.  For integer data and the default
    fcn_agg = np.nanmean the float mean is truncated towards zero (C cast). *)
